@@ -171,9 +171,9 @@ def session_spec(draw, max_datasets=3, datetime=True, joins=True, links=True):
             used = [tuple(L[k]) for L in lks for k in ("a", "b", "a2", "b2") if k in L]
             if (a, ta) in used or (b, tb) in used:
                 continue
-            kind = draw(st.sampled_from(["func", "twoway", "identity", "linksame", "linktwoway", "helper2", "multilink"]))
+            kind = draw(st.sampled_from(["func", "twoway", "identity", "linksame", "linktwoway", "helper2", "multilink", "mixed"]))
             L = {"kind": kind, "a": [a, ta], "b": [b, tb], "fn": draw(st.sampled_from(sorted(FUNCS)))}
-            if kind in ("helper2", "multilink"):
+            if kind in ("helper2", "multilink", "mixed"):
                 # two attributes on each side
                 ra = [x for x in na if x != ta and (a, x) not in used]
                 rb = [x for x in nb if x != tb and (b, x) not in used]
@@ -238,6 +238,12 @@ def build_session(spec, plain_subsets=False):
             ca2 = datas[L["a2"][0]].main_components[L["a2"][1]]
             cb2 = datas[L["b2"][0]].main_components[L["b2"][1]]
             dc.add_link(getattr(H, L["helper"])(cids1=[ca, ca2], cids2=[cb, cb2]))
+        elif L["kind"] == "mixed":
+            # a one-input link into dataset b, plus a two-input link whose inputs span both datasets and whose output lies in b
+            ca2 = datas[L["a2"][0]].main_components[L["a2"][1]]
+            cb2 = datas[L["b2"][0]].main_components[L["b2"][1]]
+            dc.add_link(ComponentLink([ca], cb, using=f))
+            dc.add_link(ComponentLink([cb, ca2], cb2, using=lf_add))
         elif L["kind"] == "multilink":
             from glue.core.link_helpers import MultiLink
             ca2 = datas[L["a2"][0]].main_components[L["a2"][1]]
